@@ -49,9 +49,24 @@ def run_case(ctx, index: int, *, salt="hist"):
     hist = buildkit.gen_hist(r, model, watch_prob=0.3, source_prob=0.5, break_prob=0.06)
     sim_seed = r.randrange(1 << 30)
     noop_seeds = [r.randrange(1 << 30) for _ in range(len(hist.events) + 1)]
+    initial = projgen.render(model)
+    source_only = [None if x is None else sorted(x) for x in hist.source_only]
+    found, summary = evaluate(initial, hist.events, source_only, sim_seed, noop_seeds)
+    summary["index"] = index
+    if found:
+        hist.explicit = {"initial": buildkit.to_json({"scripts": initial.scripts, "files": initial.files,
+                                                      "env": initial.env}),
+                         "events": buildkit.to_json(hist.events), "source_only": source_only, "seed": sim_seed,
+                         "noop_seeds": noop_seeds}
+    return found, summary, hist
+
+
+def evaluate(initial, events, source_only, sim_seed, noop_seeds):
+    """Run the events on `initial` with an unchanged rebuild after every successful build and the
+    cone check after every source-only edit. Returns `(findings, summary)`."""
     found: list[tuple[str, str, dict]] = []
-    summary = {"index": index, "noop_checks": 0, "cone_checks": 0, "cone_executed": 0, "nbuild": 0,
-               "watch": hist.events[-1][0] == "shutdown", "commands": 0, "cone_nonempty": 0}
+    summary = {"noop_checks": 0, "cone_checks": 0, "cone_executed": 0, "nbuild": 0,
+               "watch": bool(events) and events[-1][0] == "shutdown", "commands": 0, "cone_nonempty": 0}
 
     def check_noop(before, again, mode, phase):
         summary["noop_checks"] += 1
@@ -93,10 +108,10 @@ def run_case(ctx, index: int, *, salt="hist"):
                           {"phase": phase, "edited": sorted(edited), "executed": executed, "cone": sorted(cone),
                            "outside": outside}))
 
-    with SimDirector(copy.deepcopy(projgen.render(model)), seed=sim_seed) as sim:
+    with SimDirector(copy.deepcopy(initial), seed=sim_seed) as sim:
         last_ok = None  # result of the last build phase when it was successful
         nedit = -1
-        for n, event in enumerate(hist.events):
+        for n, event in enumerate(events):
             kind = event[0]
             watching = sim.session is not None and sim.session.watching
             result = None
@@ -105,7 +120,7 @@ def run_case(ctx, index: int, *, salt="hist"):
                 result = sim.build(**event[1])
             elif kind == "edits":
                 nedit += 1
-                edited = hist.source_only[nedit]
+                edited = source_only[nedit]
                 if watching:
                     result = sim.watch_rebuild(event[1])
                 else:
@@ -124,7 +139,7 @@ def run_case(ctx, index: int, *, salt="hist"):
                               {"error": (result.error or "")[-1200:]}))
                 break
             # cone check: this phase follows a source-only edit of a successful state
-            if kind == "build" and n > 0 and hist.events[n - 1][0] == "edits":
+            if kind == "build" and n > 0 and events[n - 1][0] == "edits":
                 edited, before = pending_edit
             elif kind == "edits":
                 before = last_ok
@@ -147,7 +162,7 @@ def run_case(ctx, index: int, *, salt="hist"):
                     break
                 if again.ok:
                     last_ok = again
-    return found, summary, hist
+    return found, summary
 
 
 WALL_LIMIT = {"quick": 240, "thorough": 1500}
@@ -186,8 +201,10 @@ async def search(ctx):
             ctx.finding(Finding(PID, sig, what, {
                 "case": {"verif_seed": ctx.seed, "salt": "hist", "index": i},
                 "mutations": hist.mutations, "events": buildkit.describe_events(hist.events), **extra,
+                "explicit": getattr(hist, "explicit", None),
                 "how": "props/c04.py run_case(ctx, index): every successful build is repeated unchanged; phases "
-                       "that edit sources only are checked against buildkit.cone",
+                       "that edit sources only are checked against buildkit.cone; `explicit` holds the inputs of "
+                       "props.c04.evaluate",
             }))
         if stop:
             break
@@ -210,8 +227,18 @@ async def replay(ctx, detail):
     case = d.get("case", {})
     os.environ["VERIF_SEED"] = str(case.get("verif_seed", 0))
     ctx.seed = int(case.get("verif_seed", 0))
+    sig = detail.get("signature", "")
+    if d.get("explicit"):
+        e = d["explicit"]
+        data = buildkit.from_json(e["initial"])
+        from simdirector import Project
+
+        initial = Project(scripts=data["scripts"], files=data["files"], env=data["env"])
+        found, summary = await asyncio.to_thread(evaluate, initial, buildkit.from_json(e["events"]), e["source_only"],
+                                                 e["seed"], e["noop_seeds"])
+        return {"reproduced": any(s == sig for s, _, _ in found), "signature": sig, "replayed_from": "explicit data",
+                "found": [[s, w] for s, w, _ in found], "summary": summary}
     found, summary, hist = await asyncio.to_thread(run_case, ctx, int(case.get("index", 0)),
                                                    salt=case.get("salt", "hist"))
-    sig = detail.get("signature", "")
     return {"reproduced": any(s == sig for s, _, _ in found), "signature": sig,
             "found": [[s, w] for s, w, _ in found], "summary": summary}
